@@ -144,10 +144,56 @@ first branch point/root above it, has only slabs in between, and the segments pa
 theorem smallSegments_correct (t : Table) (hw : WF t) : smallSegmentsOKB t (smallSegments t) = true :=
   smallSegments_ok hw
 
+/-- **Shape of the model's small segments**, readable form: child→parent paths of ≥ 2 nodes ending at a
+branch point/root with only slabs strictly inside. -/
+theorem small_segments_shape (t : Table) (hw : WF t) : ∀ s ∈ smallSegments t,
+    isParentPath t s = true ∧ s.length > 1 ∧
+      (∃ l, s.getLast? = some l ∧ isBranchOrRoot t l = true) ∧
+      (∀ i ∈ (s.drop 1).dropLast, childCount t i = 1 ∧ isBranchOrRoot t i = false) :=
+  (smallSegmentsOKB_sound t _ (smallSegments_correct t hw)).1
+
 /-- The model's small segments add up to the cable length. -/
 theorem smallSegments_sum_to_cable (t : Table) (hw : WF t) (len : Int → Int → Nat) :
     ((smallSegments t).map (pathLen len)).sum = cable t len :=
   small_segment_lengths_sum_to_cable t hw len _ (smallSegments_correct t hw)
+
+/-! ### The model's greedy segments satisfy the property -/
+
+/-- **`segments` is sorted longest first** (no hypothesis on the table needed). -/
+theorem segments_sorted (t : Table) (len : Int → Int → Nat) :
+    ∀ k (h1 : k + 1 < ((segments t len).map (pathLen len)).length),
+      ((segments t len).map (pathLen len))[k+1] ≤ ((segments t len).map (pathLen len))[k]'(by omega) :=
+  nonIncreasing_spec _ (segments_nonIncreasing t len)
+
+/-- **The single-node segments are exactly the isolated nodes** (childless roots), in table order,
+and they come last (no hypothesis on the table needed). -/
+theorem segments_isolated (t : Table) (len : Int → Int → Nat) :
+    ((segments t len).filter fun s => s.length == 1).flatten =
+      (t.filter fun n => isRootNode n && childCount t n.id == 0).map (·.id) ∧
+    ∃ long, segments t len = long ++ ((t.filter fun n => isRootNode n && childCount t n.id == 0).map fun n => [n.id]) ∧
+      ∀ s ∈ long, s.length > 1 := by
+  refine ⟨segments_single_eq_isolated t len, _, rfl, ?_⟩
+  intro s hs
+  have : s ∈ (segments t len).filter fun s => s.length > 1 := by
+    rw [segments_filter_long]; exact hs
+  simpa using (List.mem_filter.mp this).2
+
+/-- **Every non-root node is a non-last element of exactly one segment** (⇒ each edge lies in exactly
+one segment). -/
+theorem segments_partition (t : Table) (hw : WF t) (len : Int → Int → Nat) :
+    (((segments t len).filter fun s => s.length > 1).flatMap fun s => s.dropLast).Perm
+      ((t.filter fun n => !isRootNode n).map (·.id)) :=
+  (segmentsOKB_sound t len _ (segments_ok hw len)).2.1
+
+/-- **`segments` is correct**: child→parent paths, an edge partition, longest first, isolated nodes
+as the single-node segments. -/
+theorem segments_correct (t : Table) (hw : WF t) (len : Int → Int → Nat) :
+    segmentsOKB t len (segments t len) = true := segments_ok hw len
+
+/-- The model's segments add up to the cable length. -/
+theorem segments_sum_to_cable (t : Table) (hw : WF t) (len : Int → Int → Nat) :
+    ((segments t len).map (pathLen len)).sum = cable t len :=
+  segment_lengths_sum_to_cable t hw len _ (segments_correct t hw len)
 
 /-! ### Non-vacuity -/
 def ex : Table := [⟨1, -1, 0, 0, 0, .root⟩, ⟨2, 1, 3, 0, 0, .branch⟩, ⟨3, 2, 6, 0, 0, .end_⟩, ⟨4, 2, 3, 4, 0, .end_⟩, ⟨9, -1, 0, 0, 0, .root⟩]
@@ -156,5 +202,14 @@ example : geo ex (coordLen ex) true 3 4 = none ∧ geo ex (coordLen ex) false 3 
 example : segments ex (coordLen ex) = [[4, 2, 1], [3, 2], [9]] := by decide
 example : segmentsOKB ex (coordLen ex) (segments ex (coordLen ex)) = true := by decide
 example : smallSegmentsOKB ex (smallSegments ex) = true := by decide
+example : wfB ex = true := by decide
+theorem ex_WF : WF ex := wfB_sound (by decide)
+example : geo ex (coordLen ex) false 4 3 = geo ex (coordLen ex) false 3 4 := geo_symm ex ex_WF _ 4 3
+example : rootOf ex 3 = some 1 ∧ rootOf ex 9 = some 9 ∧ geo ex (coordLen ex) false 3 9 = none := by decide
+example : smallSegments ex = [[2, 1], [3, 2], [4, 2]] := by decide
+example : ((segments ex (coordLen ex)).map (pathLen (coordLen ex))).sum = 10 ∧ cable ex (coordLen ex) = 10 ∧
+    ((smallSegments ex).map (pathLen (coordLen ex))).sum = 10 := by decide
+example : distToRoot ex (coordLen ex) 4 = coordLen ex 4 2 + distToRoot ex (coordLen ex) 2 ∧
+    distToRoot ex (coordLen ex) 4 = 7 := by decide
 
 end Navis.Props.C05
